@@ -240,6 +240,12 @@ class Origin(threading.Thread):
         s = self.sock
         try:
             s.settimeout(IO_TIMEOUT)
+            if self.certfile is None:
+                # not a TLS server: answers the ClientHello with clear text and goes away
+                self.received = s.recv(65536)[:0]
+                s.sendall(b'HTTP/1.1 400 Bad Request\r\n\r\n')
+                self.handshake = 'garbage'
+                return
             ctx = ssl.SSLContext(ssl.PROTOCOL_TLS_SERVER)
             ctx.load_cert_chain(self.certfile, self.keyfile)
 
@@ -289,8 +295,9 @@ class Client(threading.Thread):
     """verifying TLS client: CONNECT, read the acknowledgement, handshake (trusting only the
     throw-away CA, checking the name `host`), send `request` cut at `cuts`, read the response."""
 
-    def __init__(self, sock, connect_bytes, host, cafile, request, cuts):
+    def __init__(self, sock, connect_bytes, host, cafile, request, cuts, mode='verify'):
         super().__init__(daemon=True)
+        self.mode = mode
         self.sock = sock
         self.connect_bytes = connect_bytes
         self.host = host
@@ -310,6 +317,8 @@ class Client(threading.Thread):
         try:
             s.settimeout(IO_TIMEOUT)
             s.sendall(self.connect_bytes)
+            if self.mode == 'gone':
+                return
             buf = _recv_until(s, b'\r\n\r\n')
             head, sep, rest = buf.partition(b'\r\n\r\n')
             self.ack = head + sep
@@ -320,7 +329,9 @@ class Client(threading.Thread):
                 # nothing may follow the acknowledgement in clear before our ClientHello
                 self.plain_after_ack = rest
                 return
-            ctx = ssl.create_default_context(cafile=self.cafile)
+            if self.mode == 'hangup':
+                return
+            ctx = ssl.create_default_context(cafile=None if self.mode == 'distrust' else self.cafile)
             bare = self.host[1:-1] if self.host.startswith('[') and self.host.endswith(']') else self.host
             try:
                 tls = ctx.wrap_socket(s, server_hostname=bare)
@@ -467,7 +478,9 @@ class Patches:
             try:
                 orig_cwrap(conn, keyfile, certfile)
             except BaseException as e:
-                ent['out'] = _exc_class(e)
+                # the pending acknowledgement is flushed before the handshake starts
+                ent['out'] = 'flushFailed' if conn.has_buffer() else 'hsFailed'
+                ent['exc'] = _exc_class(e)
                 raise
             ent['out'] = 'ok'
         self._set(TcpClientConnection, 'wrap', cwrap)
@@ -553,6 +566,8 @@ class World:
         args += ['--ca-cert-dir', self.certdir]
         if c['insecure']:
             args += ['--insecure-tls-interception']
+        if c.get('openssl'):
+            args += ['--openssl', c['openssl']]
         classes = [plugin_class(i, a) for i, a in enumerate(c['plugins'])]
         self.flags = FlagParser.initialize(args, threadless=True, plugins=classes)
         logging.disable(logging.CRITICAL)
@@ -561,7 +576,8 @@ class World:
         REC.append({'ev': 'connect', 'host': addr[0], 'port': addr[1]})
         a, b = socket.socketpair()
         sit = self.case['sit']
-        o = Origin(b, self.p.leaf(sit, self.case['host']), self.p.origin_key, origin_response(self.case),
+        o = Origin(b, None if sit == 'garbage' else self.p.leaf(sit, self.case['host']), self.p.origin_key,
+                   origin_response(self.case),
                    extra_raw=bytes.fromhex(self.case.get('junk', '')))
         self.origins.append(o)
         o.start()
@@ -571,26 +587,54 @@ class World:
         shutil.rmtree(self.certdir, ignore_errors=True)
 
 
+def _post(handler, escaped):
+    """handler state right after the tick that processed the CONNECT"""
+    plugin = handler.plugin
+    up = plugin.upstream if plugin else None
+    det = False
+    if up is not None and up._conn is not None:
+        try:
+            det = up._conn.fileno() == -1
+        except OSError:
+            det = True
+    return {
+        'clientTls': isinstance(handler.work._conn, ssl.SSLSocket),
+        'upTls': bool(up is not None and isinstance(up._conn, ssl.SSLSocket)),
+        'det': det,
+        'cbuf': [bytes(x) for x in handler.work.buffer],
+        'ubuf': [bytes(x) for x in up.buffer] if up is not None else [],
+        'mustFlush': bool(handler.must_flush_before_shutdown),
+        'readsTeared': bool(handler.reads_teared),
+        'intercepting': bool(plugin._tls_intercept_enabled) if plugin else False,
+        'escaped': escaped,
+    }
+
+
 def run_connect(w, case):
     """one CONNECT through a fresh real handler; returns the observation dict"""
     import asyncio
     from proxy.http.handler import HttpProtocolHandler
     from proxy.http.connection import HttpClientConnection
     del REC[:]
+    fs_before = sorted(os.path.join(w.certdir, n) for n in os.listdir(w.certdir))
     loop = asyncio.new_event_loop()
     c_peer, c_proxy = socket.socketpair()
     n_before = len(w.origins)
     calls_before = w.openssl_calls
     handler = HttpProtocolHandler(HttpClientConnection(c_proxy, ('127.0.0.1', 50000)), flags=w.flags)
     handler.initialize()
-    cl = Client(c_peer, connect_bytes(case), case['host'], w.p.ca_cert, inner_request(case), case.get('cuts', []))
+    cl = Client(c_peer, connect_bytes(case), case['host'], w.p.ca_cert, inner_request(case), case.get('cuts', []),
+                case.get('client', 'verify'))
     cl.start()
     sel = selectors.DefaultSelector()
     deadline = time.time() + 25
     ended = None
     idle = 0
     snapshot = None
+    post = None
     minus_one = False
+    if case.get('client') == 'gone':
+        cl.join(IO_TIMEOUT)
     try:
         while time.time() < deadline:
             ev = loop.run_until_complete(handler.get_events())
@@ -609,9 +653,13 @@ def run_connect(w, case):
                 td = loop.run_until_complete(handler.handle_events(R, W))
             except Exception as e:      # noqa: BLE001 — what escapes handle_events is an observation
                 ended = 'raised ' + _exc_class(e)
+                if snapshot is None:
+                    snapshot = list(REC)
+                    post = _post(handler, True)
                 break
             if snapshot is None and any(e.get('ev') == 'result' for e in REC):
                 snapshot = list(REC)
+                post = _post(handler, False)
             if td:
                 ended = 'teardown'
                 break
@@ -626,6 +674,7 @@ def run_connect(w, case):
         sel.close()
     if snapshot is None:
         snapshot = list(REC)
+        post = _post(handler, False)
     plugin = handler.plugin
     state = {
         'clientTls': isinstance(handler.work.connection, ssl.SSLSocket),
@@ -644,14 +693,32 @@ def run_connect(w, case):
         o.join(IO_TIMEOUT + 2)
     hung = cl.is_alive() or any(o.is_alive() for o in w.origins[n_before:])
     o = w.origins[n_before] if len(w.origins) > n_before else None
+    leaf_path = os.path.join(w.certdir, case['host'] + '.pem')
+    leaf = None
+    if os.path.isfile(leaf_path):
+        try:
+            leaf = decode_cert(leaf_path)
+        except Exception as e:      # noqa: BLE001
+            leaf = {'error': repr(e)}
     return {
-        'rec': snapshot, 'ended': ended, 'state': state, 'hung': hung,
+        'fs_before': fs_before, 'leaf': leaf,
+        'rec': snapshot, 'post': post, 'ended': ended, 'state': state, 'hung': hung,
         'openssl_calls': w.openssl_calls - calls_before,
         'client': {'ack': cl.ack, 'handshake': cl.handshake, 'cert': cl.peer_cert, 'der': cl.peer_der,
                    'response': cl.response, 'plain': cl.plain_after_ack, 'error': cl.error},
         'origin': None if o is None else {'handshake': o.handshake, 'sni': o.sni, 'received': o.received,
                                           'error': o.error},
     }
+
+
+def decode_cert(path):
+    import _ssl
+    return _ssl._test_decode_cert(path)
+
+
+def pem_to_der(path):
+    with open(path) as f:
+        return ssl.PEM_cert_to_DER_cert(f.read())
 
 
 _OBS_CACHE = {}
@@ -675,3 +742,359 @@ def observe(case):
         _OBS_CACHE.clear()
     _OBS_CACHE[key] = out
     return out
+
+
+# --------------------------------------------------------------------------
+# canonical lines
+# --------------------------------------------------------------------------
+
+def hs(s):
+    """hex of a Python str (None stays None)"""
+    return 'None' if s is None else hx(s.encode())
+
+
+def hlist(items):
+    return '-' if not items else ','.join(hx(x) for x in items)
+
+
+def b01(x):
+    return '1' if x else '0'
+
+
+FIXED_SERIAL = '17000000004242'     # '%d%d' % (1700000000.9, 4242) with the patched clock / pid
+
+
+def eff_lines(rec):
+    """canonical rendering of the recorded effects up to and including the result"""
+    out = []
+    k = 0
+    res = None
+    for e in rec:
+        ev = e['ev']
+        if ev == 'connect':
+            continue
+        if ev == 'queue':
+            out.append(('Q ' if e['to'] == 'client' else 'QU ') + hx(e['data']))
+        elif ev == 'ask':
+            out.append('A %d' % e['idx'])
+        elif ev == 'wrapUp':
+            out.append('U sni=%s ca=%s none=%s chk=%s out=%s' % (
+                hs(e['sni']), hs(e['ca']), b01(e['mode'] == 'CERT_NONE'), b01(e['chk']), e['out']))
+        elif ev == 'isfile':
+            out.append('F %s %s' % (hs(e['path']), b01(e['res'])))
+        elif ev == 'openssl':
+            argv = list(e['argv'])
+            f = 'None'
+            if e['file'] is not None:
+                path, content = e['file']
+                tmp = 'TMP%d' % k
+                argv = [tmp if a == path else a for a in argv]
+                f = '%s:%s' % (hs(tmp), hx(content))
+            out.append('X argv=%s file=%s out=%s' % (
+                hlist([a.encode() for a in argv]), f,
+                'timeout' if e['rc'] == 'timeout' else ('ok' if e['rc'] else 'failed')))
+            k += 1
+        elif ev == 'wrapClient':
+            out.append('C key=%s cert=%s pending=%s out=%s' % (hs(e['key']), hs(e['cert']), hlist(e['pending']), e['out']))
+        elif ev == 'result':
+            res = e['val']
+            break
+    return out, res
+
+
+def post_lines(res, post):
+    r = {'False': 'plain', 'ssl': 'ssl', 'True': 'teardown'}.get(res, None)
+    if r is None:
+        r = 'raised-' + res.split(' ', 1)[1] if res and res.startswith('raised ') else 'none'
+    line = 'R %s ctls=%s utls=%s det=%s cbuf=%s' % (r, b01(post['clientTls']), b01(post['upTls']), b01(post['det']),
+                                                   hlist(post['cbuf']))
+    if post['escaped']:
+        s = 'S none'
+    else:
+        s = 'S kind=%s mustFlush=%s readsTeared=%s cbuf=%s ubuf=%s' % (
+            'http' if post['intercepting'] else 'tunnel', b01(post['mustFlush']), b01(post['readsTeared']),
+            hlist(post['cbuf']), hlist(post['ubuf']))
+    return [line, s]
+
+
+# --------------------------------------------------------------------------
+# e2e: impl lines / model lines
+# --------------------------------------------------------------------------
+
+def upstream_subject(case):
+    """what `{s[0][0]: s[0][1] for s in cert['subject']}` iterates over for the origin's leaf"""
+    if case['sit'] == 'garbage':
+        return []
+    cert = decode_cert(pki().leaf(case['sit'], case['host']))
+    return [(rdn[0][0], rdn[0][1]) for rdn in cert['subject']]
+
+
+def expected_client_wrap(case):
+    """the client's side of the client-facing handshake is an environment input of the model:
+    'o' completes, 'f' the acknowledgement cannot even be flushed, 'h' the handshake fails"""
+    mode = case.get('client', 'verify')
+    if mode == 'gone':
+        return 'f'
+    if mode in ('distrust', 'hangup'):
+        return 'h'
+    # a verifying client rejects the leaf of an IP-literal target (D16) or one naming another host
+    return 'h' if is_ip_literal(case['host']) else 'o'
+
+
+def e2e_impl(case):
+    lines = []
+    for o in observe(case):
+        effs, res = eff_lines(o['rec'])
+        lines.append(' | '.join(effs + post_lines(res, o['post'])))
+    return lines
+
+
+def e2e_model_lines(case):
+    p = pki()
+    lines = []
+    obs = observe(case)       # environment inputs that only exist at run time: the cache directory listing
+    for o in obs:
+        certdir = os.path.dirname(o['fs_before'][0]) if o['fs_before'] else _certdir_of(o)
+        inter = case['intercept']
+        subj = upstream_subject(case)
+        lines.append('tls orc %s %s %s %s %s %s %s %s %s %s %s %s %s %s %s 0' % (
+            hs(p.ca_key) if inter else 'None', hs(p.ca_cert) if inter else 'None',
+            hs(p.signing_key) if inter else 'None', hs(certdir), hs(p.ca_cert), b01(case['insecure']),
+            hs(case.get('openssl') or 'openssl'), ''.join(case['plugins']) or '-', hs(case['host']), case['sit'],
+            ','.join('%s=%s' % (hs(k), hs(v)) for k, v in subj) or '-',
+            hlist([x.encode() for x in o['fs_before']]),
+            'f' if case.get('openssl') == '/bin/false' else 'o', expected_client_wrap(case), hs(FIXED_SERIAL)))
+    return lines
+
+
+def _certdir_of(o):
+    for e in o['rec']:
+        if e['ev'] == 'isfile':
+            return os.path.dirname(e['path'])
+    return '/nonexistent'
+
+
+# --------------------------------------------------------------------------
+# layer tests (no crypto): pki argv / ext file, cache logic, do_intercept chain, upstream context settings
+# --------------------------------------------------------------------------
+
+def alt_tok(alt):
+    if alt is None:
+        return 'None'
+    if not alt:
+        return '[]'
+    return ','.join(hs(a) for a in alt)
+
+
+def _fake_openssl(script, created):
+    """stand-in for run_openssl_command: k-th call ends as script[k] ('o' rc 0 and the -out file appears,
+    'f' rc != 0, 't' TimeoutExpired)"""
+    def run(command, timeout):
+        k = sum(1 for e in REC if e['ev'] == 'openssl')
+        content = None
+        for flag in ('-config', '-extfile'):
+            if flag in command:
+                with open(command[command.index(flag) + 1], 'rb') as f:
+                    content = (command[command.index(flag) + 1], f.read())
+        out = script[k] if k < len(script) else 'o'
+        ent = {'ev': 'openssl', 'argv': list(command), 'file': content, 'timeout': timeout,
+               'rc': True if out == 'o' else ('timeout' if out == 't' else False)}
+        REC.append(ent)
+        if out == 't':
+            raise subprocess.TimeoutExpired(command, timeout)
+        if out == 'o' and '-out' in command:
+            created.add(command[command.index('-out') + 1])
+        return out == 'o'
+    return run
+
+
+def call_line(ent):
+    effs, _ = eff_lines([ent])
+    return effs[0][2:].rsplit(' out=', 1)[0]
+
+
+_BASE_FLAGS = None
+
+
+def base_flags():
+    global _BASE_FLAGS
+    if _BASE_FLAGS is None:
+        from proxy.common.flag import FlagParser
+        _BASE_FLAGS = FlagParser.initialize(['--hostname', '127.0.0.1', '--ca-cert-dir', tempfile.gettempdir()],
+                                            threadless=True)
+        logging.disable(logging.CRITICAL)
+    return _BASE_FLAGS
+
+
+def make_plugin(flags, host):
+    from proxy.http.handler import HttpProtocolHandler
+    from proxy.http.connection import HttpClientConnection
+    from proxy.http.proxy.server import HttpProxyPlugin
+    a, b = socket.socketpair()
+    try:
+        handler = HttpProtocolHandler(HttpClientConnection(a, ('127.0.0.1', 50000)), flags=flags)
+        handler.request.parse(memoryview(b'CONNECT placeholder.example:443 HTTP/1.1\r\n\r\n'))
+        handler.request.host = host
+        return handler._initialize_plugin(HttpProxyPlugin)
+    finally:
+        a.close()
+        b.close()
+
+
+def layer_impl(case):
+    import copy
+    import proxy.common.pki as PKI
+    import proxy.http.proxy.server as PS
+    import proxy.core.connection.server as SRV
+    k = case['kind']
+    del REC[:]
+    if k in ('ext', 'cfg'):
+        alt, eku = case['alt'], case['eku']
+        if k == 'ext':
+            return ['ok ' + hx(PKI.get_ext_config(alt, eku))]
+        with PKI.ssl_config(alt, eku) as (path, has):
+            with open(path, 'rb') as f:
+                content = f.read()
+        return ['ok %s %s' % (b01(has), hx(content))]
+    if k in ('pub', 'csr', 'sign'):
+        orig = PKI.run_openssl_command
+        PKI.run_openssl_command = _fake_openssl('o', set())
+        try:
+            c = case
+            if k == 'pub':
+                PKI.gen_public_key(c['pub'], c['key'], c['pw'], c['subject'], alt_subj_names=c['alt'],
+                                   extended_key_usage=c['eku'], validity_in_days=c['days'], openssl=c['openssl'])
+            elif k == 'csr':
+                PKI.gen_csr(c['csr'], c['key'], c['pw'], c['crt'], openssl=c['openssl'])
+            else:
+                PKI.sign_csr(c['csr'], c['crt'], c['cakey'], c['capw'], c['cacrt'], c['serial'],
+                             alt_subj_names=c['alt'], extended_key_usage=c['eku'], validity_in_days=c['days'],
+                             openssl=c['openssl'])
+        finally:
+            PKI.run_openssl_command = orig
+        return [call_line(REC[0])]
+    if k == 'path':
+        return ['ok ' + hs(PS.HttpProxyPlugin.generated_cert_file_path(case['dir'], case['host']))]
+    if k == 'swrap':
+        from proxy.core.connection import TcpServerConnection
+        seen = {}
+
+        class Ctx:
+            options = 0
+            check_hostname = True
+            verify_mode = ssl.CERT_REQUIRED
+
+            def wrap_socket(self, sock, server_hostname=None):
+                seen.update(sni=server_hostname, chk=self.check_hostname, mode=self.verify_mode)
+                return sock
+
+        def create_default_context(purpose=None, cafile=None):
+            seen['ca'] = cafile
+            seen['purpose'] = purpose
+            return Ctx()
+
+        class Sock:
+            def setblocking(self, v):
+                pass
+        conn = TcpServerConnection('h', 1)
+        conn._conn = Sock()
+        orig = SRV.ssl
+        SRV.ssl = _ModShim(ssl, create_default_context=create_default_context)
+        try:
+            kw = {}
+            if case['vn'] is not None:
+                kw['verify_mode'] = ssl.CERT_NONE if case['vn'] else ssl.CERT_REQUIRED
+            conn.wrap(case['hostname'], case['cafile'], **kw)
+        finally:
+            SRV.ssl = orig
+        return ['sni=%s ca=%s none=%s chk=%s' % (hs(seen['sni']), hs(seen['ca']),
+                                                 b01(seen['mode'] == ssl.CERT_NONE), b01(seen['chk']))]
+    if k == 'chain':
+        from proxy.common.flag import FlagParser
+        args = ['--hostname', '127.0.0.1', '--ca-cert-dir', tempfile.gettempdir()]
+        if case['enabled']:
+            args += ['--ca-key-file', '/k', '--ca-cert-file', '/c', '--ca-signing-key-file', '/s']
+        flags = FlagParser.initialize(args, threadless=True,
+                                      plugins=[plugin_class(i, a) for i, a in enumerate(case['answers'])])
+        logging.disable(logging.CRITICAL)
+        plugin = make_plugin(flags, b'h.example')
+        del REC[:]
+        v = plugin._tls_intercept_enabled
+        effs, _ = eff_lines(REC)
+        return ['%s %s' % (b01(v), ' | '.join(effs))]
+    if k == 'gen':
+        flags = copy.copy(base_flags())
+        flags.ca_key_file, flags.ca_cert_file = case['cakey'], case['cacert']
+        flags.ca_signing_key_file, flags.ca_cert_dir = case['signkey'], case['dir']
+        flags.openssl = case['openssl']
+        plugin = make_plugin(flags, L(case['host']))
+        created = set(case['fs'])
+
+        def isfile(p):
+            r = p in created
+            REC.append({'ev': 'isfile', 'path': p, 'res': r})
+            return r
+        saved = (PS.os, PS.time, PKI.run_openssl_command)
+        PS.os = _ModShim(os, path=_ModShim(os.path, isfile=isfile), getpid=lambda: 4242)
+        PS.time = _ModShim(time, time=lambda: 1700000000.9)
+        PKI.run_openssl_command = _fake_openssl(case['cmds'], created)
+        del REC[:]
+        try:
+            try:
+                path = plugin.generate_upstream_certificate({'subject': tuple(((a, b),) for a, b in case['subject'])})
+                end = 'done'
+            except AssertionError:
+                path, end = None, 'assertion'
+            except subprocess.TimeoutExpired:
+                path, end = None, 'timeout'
+            except Exception as e:      # noqa: BLE001
+                return ['exc ' + exc_name(e)]
+        finally:
+            PS.os, PS.time, PKI.run_openssl_command = saved
+        effs, _ = eff_lines(REC)
+        want = PS.HttpProxyPlugin.generated_cert_file_path(case['dir'], case['host'])
+        if path is not None and path != want:
+            return ['returned-path-differs %r' % path]
+        return ['%s | %s %s' % (' | '.join(effs), end, hs(want))]
+    raise ValueError(k)
+
+
+def opt_tok(s):
+    return 'None' if s is None else hs(s)
+
+
+def layer_model_lines(case):
+    k = case['kind']
+    c = case
+    if k in ('ext', 'cfg'):
+        return ['tls %s %s %s' % (k, alt_tok(c['alt']), opt_tok(c['eku']))]
+    if k == 'pub':
+        return ['tls pub %s %s %s %s %s %s %s %d %s' % (hs(c['openssl']), hs(c['pub']), hs(c['key']), hs(c['pw']),
+                                                        hs(c['subject']), alt_tok(c['alt']), opt_tok(c['eku']),
+                                                        c['days'], hs('TMP0'))]
+    if k == 'csr':
+        return ['tls csr %s %s %s %s %s' % (hs(c['openssl']), hs(c['csr']), hs(c['key']), hs(c['pw']), hs(c['crt']))]
+    if k == 'sign':
+        return ['tls sign %s %s %s %s %s %s %s %s %s %d %s' % (
+            hs(c['openssl']), hs(c['csr']), hs(c['crt']), hs(c['cakey']), hs(c['capw']), hs(c['cacrt']),
+            hs(c['serial']), alt_tok(c['alt']), opt_tok(c['eku']), c['days'], hs('TMP0'))]
+    if k == 'path':
+        return ['tls path %s %s' % (hs(c['dir']), hs(c['host']))]
+    if k == 'swrap':
+        return ['tls swrap %s %s %s' % (opt_tok(c['hostname']), opt_tok(c['cafile']), b01(c['vn']))]
+    if k == 'chain':
+        return ['tls chain %s %s' % (b01(c['enabled']), ''.join(c['answers']) or '-')]
+    if k == 'gen':
+        return ['tls gen %s %s %s %s %s %s %s %s %s %s' % (
+            opt_tok(c['cakey']), opt_tok(c['cacert']), opt_tok(c['signkey']), opt_tok(c['dir']), hs(c['openssl']),
+            hs(c['host']), ','.join('%s=%s' % (hs(a), hs(b)) for a, b in c['subject']) or '-',
+            hlist([x.encode() for x in c['fs']]), c['cmds'] or 'o', hs(FIXED_SERIAL))]
+    raise ValueError(k)
+
+
+def impl(case):
+    return e2e_impl(case) if case['kind'] == 'e2e' else layer_impl(case)
+
+
+def model_lines(case):
+    return e2e_model_lines(case) if case['kind'] == 'e2e' else layer_model_lines(case)
